@@ -263,7 +263,7 @@ func c17Run(t *testing.T, plan c17Plan, dir string, st map[string]int, desc *[]s
 			}
 		}
 		viaHTTPNext := false
-		issuerKnown := false // the accepted root has been stored as an issuer by an earlier direct submission: a first submission over HTTP does not wait for storage
+		issuerKnown := false          // the accepted root has been stored as an issuer by an earlier direct submission: a first submission over HTTP does not wait for storage
 		freshIssuer := map[int]bool{} // entries naming an issuer the log has not seen (first submission uploads it)
 		submit := func(e *simEntry, low bool) {
 			var preF waitEntryFunc
